@@ -88,7 +88,7 @@ class C19(vlib.Check):
             self.count("energies:%s" % (energies is not None))
             self.count("gaps:%s" % case["gaps"])
             yield case
-        for _ in range(n // 4):
+        for _ in range(max(n // 4, 30)):
             k = rng.randint(1, 8)
             names = rng.sample(["a", "b", "mol_1", "CHEMBL25", "é", "x-1", "Z", "q.r", "n7", "3'-deoxyadenosine", 'say"x"', "a\\b", "p#1", "$v", "(R)-x"], k)
             table = {nm: rng.choice(["CCO", "c1ccccc1", "CC(=O)O", "C[C@H](N)C(=O)O", "[Na+].[Cl-]", "C/C=C/C", "F/C=C\\F", "C(/F)=C/F",
@@ -104,6 +104,7 @@ class C19(vlib.Check):
         for ext in (".smi", ".smi.gz", ".smi.bz2"):
             self.count("smiles-table:empty")
             yield {"t": "smi", "table": {}, "ext": ext}
+        for _ in range(max(n // 4, 30)):
             # hand-written SMILES files as they occur: tabs and runs of blanks, extra columns, short and empty lines, repeated
             # names and repeated SMILES, a header line; read with every option of smiles_to_dict
             toks = ["CCO", "c1ccccc1", "CC(=O)O", "N", "C/C=C/C"]
